@@ -469,9 +469,17 @@ class Sim(FAM.FamilyMixin):
 
     def ctx(self, op, h):
         self.sig_ctx = (op, h.hkind() if h else "-", h.tname if h else "-")
+
+    @property
+    def sig_ctx(self):
+        return self._sig_ctx
+
+    @sig_ctx.setter
+    def sig_ctx(self, v):
+        self._sig_ctx = v
         if PROGRESS:
             # single-run mode: lets the orchestrator name the call site of a run that dies under the sanitizer
-            print("@ctx %s %s %s" % self.sig_ctx, flush=True)
+            print("@ctx %s %s %s" % v, flush=True)
 
     def op_new(self, op):
         tname, n = op["t"], op["n"]
